@@ -11,7 +11,7 @@ from .run import Check, Section
 _dir = None
 _cls = {}
 FMT = dict(anc="s", beta=".2f", cnt="d", score=".3f", note="s")
-COMMENTS = ["#", "# ", "#text", "#\ttext", "# a comment", "#H", "#H\t", "#\tfoo\tbar", "#V", "##double"]
+COMMENTS = ["#", "# ", "#text", "#\ttext", "# a comment", "#H", "#H\t", "#\tfoo\tbar", "#V", "##double", "# version 1 of the reference panel", "# orderH beta ancestry were fitted", "# orderV score", "#  version 9.9.9"]  # the last four: prose that starts with the name of a metadata line
 
 
 def setup():
